@@ -66,6 +66,13 @@ CHECKS = {
    text="spec/Candle.tla: validate as coded equals the statement's predicate on all 32768 candles over {NaN,-Inf,-1,0,1,2,3,+Inf}^5 (IEEE comparison semantics); tr_close = three-way maximum on 0..8^3; Candle + Candle associative (incl. absent volumes) on all triples of a candle grid. spec/Parse.tla: Source::from_str and MA::from_str as grammars over character tuples; TLC enumerates canonical texts, every single-character edit of them and every short text with the grammar's verdict. Every row is replayed on Candle, the 5-tuple, the array and Sequence::validate / FromStr / TryFrom. Trace_Candle checks tp, hl2, ohlc4, volumed_price, source(kind), clv (exact 0 on zero range), tr_close and `+` on arbitrary finite candles in exact fixed point.",
    design_ref="DESIGN.md 5/C18",
    note="Strings are modelled as tuples of characters over the alphabet that matters for the two grammars plus foreign characters."),
+
+ "C17": dict(
+   technique="TLA+ model checking of CollapseTimeframe (implementation-shaped = definition, batch = streaming) and of the RenkoOutput iterator protocol, behaviours replayed; TLA+ trace validation of Renko, large-period CollapseTimeframe and HeikinAshi in exact fixed point",
+   category="model_checking",
+   text="spec/Convert.tla: CollapseTimeframe as coded (Option accumulator, counter) against the aggregate definition on every stream of 6 candles (periods 1..3), disjoint batch form = streaming outputs, sliding batch form; RenkoOutput's next/size_hint/count/nth/last for every (len, pos, n). TLC-emitted behaviours replayed on CollapseTimeframe::next/over and Sequence::collapse_timeframe. Trace_Convert keeps Renko's brick bounds in exact arithmetic from the public output and checks every recorded call: bricks iff the boundary is reached (near-boundary steps exempt from the which-side claim only), count = floor of the exact quotient and >= 1, bricks bit-contiguous, relative size b, one direction, total volume = consumed; prices are aimed exactly at / one ulp around the boundaries, with multi-brick jumps and reversals; periods up to 513 for CollapseTimeframe. HeikinAshi's recursion and valid-in => valid-out are checked by Trace_Num.",
+   design_ref="DESIGN.md 5/C17",
+   note="Renko's private next_block_upper/lower are read through Serialize only to aim inputs; verdicts use public outputs."),
 }
 
 NOT_YET = {
